@@ -108,6 +108,8 @@ def _is_default(default, value):
         return False
     if hasattr(default, "to_nplike"):  # xobject array
         default = default.to_nplike()
+    elif hasattr(default, "to_str"):  # xobject string
+        default = default.to_str()
     default, value = np.asarray(default), np.asarray(value)
     return default.shape == value.shape and bool(np.all(default == value))
 
